@@ -4,10 +4,10 @@ package main
 // PEG oracle admits, for one model.
 
 import (
-	"regexp"
 	"fmt"
 	"go/ast"
 	"go/types"
+	"regexp"
 	"sort"
 	"strings"
 )
@@ -179,6 +179,31 @@ func checkModel(r *Repo, ti *tmplInfo, rg *region, m *model, ri int, name string
 	tv.gf = gf
 	if gf != nil && gf.in != nil {
 		tv.Src = gf.in.Src
+	}
+	// user code (actions, predicates, state changes) is Go text of the grammar's author: it must
+	// reach the generated file unchanged, whatever characters it contains
+	if tv.Src != "" && gf != nil && gf.in != nil && gf.in.File != nil {
+		// the rule comments quote the code too: they are cut out first (by the parsed file's comment positions)
+		src := []byte(tv.Src)
+		for _, cg := range gf.in.File.Comments {
+			for _, cm := range cg.List {
+				if !reRuleComment.MatchString(cm.Text) {
+					continue // a comment of the user's own code
+				}
+				lo, hi := gf.in.Fset.Position(cm.Pos()).Offset, gf.in.Fset.Position(cm.End()).Offset
+				for i := lo; i < hi && i < len(src); i++ {
+					if src[i] != '\n' {
+						src[i] = ' '
+					}
+				}
+			}
+		}
+		code0 := string(src)
+		for _, code := range m.userCodes() {
+			if !strings.Contains(code0, code) {
+				tv.Contracts = append(tv.Contracts, fmt.Sprintf("the user code %q is not in the generated file verbatim", clip(code, 80)))
+			}
+		}
 	}
 	if len(errs) > 0 {
 		tv.TypeErrs = errs
@@ -496,4 +521,48 @@ func eraseSets(s string, know map[string]string) (string, map[string]map[string]
 		add(erase(p), set)
 	}
 	return key, cons
+}
+
+var reRuleComment = regexp.MustCompile(`^/\* \d+ `)
+
+// userCodes: the code of the model's actions, predicates and state changes (those that
+// do not mention the runtime's variables, whose names the vocabulary may rewrite).
+func (m *model) userCodes() []string {
+	var out []string
+	seen := map[*Obj]bool{}
+	add := func(code string) {
+		for _, w := range []string{"position", "tokenIndex", "buffer", "text", "begin", "end"} {
+			if strings.Contains(code, w) {
+				return
+			}
+		}
+		if strings.TrimSpace(code) != "" {
+			out = append(out, strings.TrimSpace(code))
+		}
+	}
+	var walk func(n *Obj)
+	walk = func(n *Obj) {
+		if n == nil || seen[n] {
+			return
+		}
+		seen[n] = true
+		switch m.typeOf(n) {
+		case "TypeAction", "TypePredicate", "TypeStateChange":
+			add(m.strOf(n))
+		}
+		for _, k := range m.kids(n) {
+			walk(k)
+		}
+	}
+	for _, r := range m.rules {
+		walk(r)
+	}
+	if acts, ok := m.tree.field("Actions").v.(*SliceV); ok && acts != nil {
+		for _, a := range acts.elems {
+			if o, ok := a.(*Obj); ok {
+				add(m.strOf(o))
+			}
+		}
+	}
+	return uniq(out)
 }
